@@ -97,9 +97,18 @@ def check(case, ctx):
     S.GENERATOR = np.random.default_rng(int(p["seed"]))
     if p["Q"] is not None:
         # the trajectory as the caller may hold it: row-major, column-major (a (4, N) log transposed, np.asfortranarray, pandas .to_numpy()), a strided view, a list
-        lay = int(p["seed"]) % 4
-        Qin = [lambda: p["Q"].copy(), lambda: np.asfortranarray(p["Q"].copy()), lambda: np.ascontiguousarray(p["Q"].T).T, lambda: np.pad(p["Q"], ((0, 0), (1, 1)))[:, 1:5]][lay]
+        lay = int(p["seed"]) % 5
+        held = {}
+
+        def as_object():
+            held["Q"] = ahrs.QuaternionArray(p["Q"].copy())
+            return held["Q"]
+        Qin = [lambda: p["Q"].copy(), lambda: np.asfortranarray(p["Q"].copy()), lambda: np.ascontiguousarray(p["Q"].T).T, lambda: np.pad(p["Q"], ((0, 0), (1, 1)))[:, 1:5], as_object][lay]
         out = call(lambda: S.Sensors(quaternions=Qin(), freq=p["freq"], **kw))
+        if out.ok and "Q" in held:
+            # the trajectory was handed over as the library's own array object; the caller goes on using that object (re-orients it in place for a second,
+            # misaligned unit): the data set generated from it must keep describing the trajectory it was generated for
+            call(lambda: held["Q"].rotate_by(np.array([0.5, 0.5, -0.5, 0.5]), inplace=True))
     else:
         out = call(lambda: S.Sensors(num_samples=int(p["N"]), freq=p["freq"], **kw))
     if not ctx.returned(out):
